@@ -326,6 +326,12 @@ func NewTransactionFromBytes(b []byte) (*Transaction, error) {
 	if r.Len() != 0 {
 		return nil, errors.New("additional data after the transaction")
 	}
+	// Hash and size are taken from the given bytes, so these must be the
+	// canonical encoding of the transaction (the decoder accepts more than
+	// that, e.g. non-minimal variable-length integers).
+	if !bytes.Equal(tx.Bytes(), b) {
+		return nil, errors.New("non-canonical transaction encoding")
+	}
 	tx.size = len(b)
 	return tx, nil
 }
